@@ -2,7 +2,7 @@
 Driver for C01: runs the executable model `SB3Verif.VecEnv` (observations = tags `Nat`, rewards = `Rat`) on the
 operations the harness (`/verif/harness/c01.py`) performed on the real `DummyVecEnv` / `SubprocVecEnv`.
 
-VAL   = null | {"b":bool} | {"i":int} | {"s":str} | {"o":tag} | {"d":OPTS}
+VAL   = null | {"b":bool} | {"i":int} | {"s":str} | {"o":tag} | {"d":OPTS} | {"l":[int]}
 INFO  = [[key, VAL], …]                OPTS = [[key, int], …]
 CALL  = ["step", a] | ["reset", seed|null, OPTS|null]
 
@@ -37,6 +37,9 @@ def asVal (j : Json) : Except String (Val Nat) :=
   match j with
   | .null => pure .none
   | _ =>
+    match j.getObjVal? "l" with
+    | .ok l => do return .list (← asListOf asInt l)
+    | .error _ =>
     match j.getObjVal? "b", j.getObjVal? "i", j.getObjVal? "s", j.getObjVal? "o", j.getObjVal? "d" with
     | .ok b, _, _, _, _ => do return .bool (← asBool b)
     | _, .ok i, _, _, _ => do return .int (← asInt i)
@@ -82,6 +85,7 @@ def valJ : Val Nat → Json
   | .str s => objJ [("s", strJ s)]
   | .obs o => objJ [("o", natJ o)]
   | .dict d => objJ [("d", optsJ d)]
+  | .list l => objJ [("l", listJ intJ l)]
 
 def infoJ (d : Info Nat) : Json := listJ (fun kv => Json.arr #[strJ kv.1, valJ kv.2]) d
 
